@@ -9,6 +9,7 @@
 import StatsCI.Driver.IntervalOps
 import StatsCI.Driver.StatOps
 import StatsCI.Driver.PropOps
+import StatsCI.Driver.ProgOps
 
 namespace StatsCI.Driver
 open StatsCI
@@ -24,7 +25,10 @@ def evalLine (prop op : String) (args : List String) : Option OpEval :=
     | _ =>
       match statOp op ty rest with
       | some e => some e
-      | none => propOp op ty rest
+      | none =>
+        match propOp op ty rest with
+        | some e => some e
+        | none => progOp op ty rest
 
 def splitAt (sep : String) (toks : List String) : List String × List String :=
   let pre := toks.takeWhile (· != sep)
